@@ -474,7 +474,47 @@ func genBlock(t *rapid.T, k storeKind, w *world, num uint64, o genOpts) blkSpec 
 				ids := []uint32{1, 2, 3, 1 << 16, 1<<32 - 1}
 				id := rapid.OneOf(rapid.SampledFrom(ids), rapid.Uint32Range(1, 1<<32-1)).Draw(t, "rollupID")
 				var er common.Hash
-				switch rapid.IntRange(0, 5).Draw(t, "exitKind") {
+				switch rapid.IntRange(0, 6).Draw(t, "exitKind") {
+				case 6:
+					// the rollup reports a value it had before (nothing a deployed rollup does - its exit tree only grows - but
+					// a sequence the store accepts) while the tree as a whole reaches a state it never had: the root table is
+					// keyed by the root hash, so only such sequences are well defined
+					er = genHash.Draw(t, "exitRoot")
+					cur := currentRollupVal(w, b.Evs, id)
+					var cands []common.Hash
+					seen := map[common.Hash]bool{}
+					add := func(h common.Hash) {
+						if h != (common.Hash{}) && h != cur && !seen[h] {
+							seen[h] = true
+							cands = append(cands, h)
+						}
+					}
+					for _, v := range w.rollupHist {
+						add(v.Leaves[id])
+					}
+					for _, pe := range b.Evs {
+						if pe.Verify != nil && pe.Verify.RollupID == id {
+							add(pe.Verify.ExitRoot)
+						}
+					}
+					if len(cands) > 0 {
+						c := cands[rapid.IntRange(0, len(cands)-1).Draw(t, "earlierValue")]
+						sp := w.rollup.Clone()
+						roots := map[common.Hash]bool{}
+						for _, v := range w.rollupHist {
+							roots[v.Root] = true
+						}
+						for _, pe := range b.Evs {
+							if pe.Verify != nil && pe.Verify.ExitRoot != (common.Hash{}) {
+								sp.Set(pe.Verify.RollupID-1, pe.Verify.ExitRoot)
+								roots[sp.Root()] = true
+							}
+						}
+						sp.Set(id-1, c)
+						if !roots[sp.Root()] {
+							er = c
+						}
+					}
 				case 0:
 					er = common.Hash{} // zero: ignored
 				case 1:
@@ -526,7 +566,12 @@ func genBlock(t *rapid.T, k storeKind, w *world, num uint64, o genOpts) blkSpec 
 			if c := reusable(o, "gerins"); len(c) > 0 && rapid.IntRange(0, 2).Draw(t, "reincludeDropped") == 0 {
 				g = c[rapid.IntRange(0, len(c)-1).Draw(t, "reincludeWhich")].GER.GlobalExitRoot
 			}
-			if _, dup := w.gerLive[g]; !dup {
+			if live := sortedHashes(w.gerLive); len(live) > 0 && rapid.IntRange(0, 3).Draw(t, "reportLiveRootAgain") == 0 {
+				// a root that is already injected is reported again by a later block, with its own index (the FEP downloader
+				// reports the newest injected root with every new block; in PP mode a root can be inserted again)
+				g = rapid.SampledFrom(live).Draw(t, "againWhich")
+				b.Evs = append(b.Evs, evSpec{Kind: "gerins", GER: &lastgersync.GEREvent{BlockNum: num, GlobalExitRoot: g, L1InfoTreeIndex: w.gerLive[g]}})
+			} else if _, dup := w.gerLive[g]; !dup {
 				idx := w.gerIdx + uint32(rapid.IntRange(0, 3).Draw(t, "idxGap"))
 				b.Evs = append(b.Evs, evSpec{Kind: "gerins", GER: &lastgersync.GEREvent{BlockNum: num, GlobalExitRoot: g, L1InfoTreeIndex: idx}})
 			}
